@@ -12,6 +12,9 @@ import (
 
 	"github.com/prometheus/prometheus/promql"
 	"github.com/prometheus/prometheus/storage"
+
+	"github.com/thanos-community/promql-engine/api"
+	"github.com/thanos-community/promql-engine/engine"
 )
 
 // ---------------------------------------------------------------------------------------------
@@ -46,6 +49,7 @@ var faultShapes = []faultShape{
 	{Query: `m0 > bool on(a,b) m0`},
 	{Query: `sum by (a) (rate(m0[1m])) / on(a) m1`},
 	{Query: `max(sum by (a) (m0))`},
+	{Query: `sum(m0) / on() sum(m1)`},
 	{Query: `histogram_quantile(0.9, h_bucket)`},
 	{Query: `histogram_quantile(0.9, rate(h_bucket[1m]))`},
 	{Query: `m0{a="x"} + on(a,b) m0`, Opt: "default"},
@@ -239,7 +243,7 @@ func execFaultedPart(c Case, faults []Fault, faultPart int) faultRun {
 			for _, d := range splitDataset(c.Dataset, c.NParts) {
 				parts = append(parts, mkStore(d))
 			}
-			fr.Out = RunDistributedPhase(ctx, parts, c.Engine, c.Query, c.Window, func(p int32) {
+			fr.Out = RunDistributedOver(ctx, mkStore(c.Dataset), parts, c.Engine, c.Query, c.Window, func(p int32) {
 				for _, s := range stores {
 					s.Phase.Store(p)
 				}
@@ -444,6 +448,9 @@ func isCtxErr(err error) bool {
 
 func (p *faultProp) Check(c Case) Outcome {
 	var o Outcome
+	if c.Kind == "cancel-race" {
+		return p.checkCancelRace(c)
+	}
 	cal := calibrate(c)
 	if !cal.ExecReturn || cal.Out.Res.Err != nil {
 		o.Skipped = fmt.Sprintf("calibration run did not succeed: returned=%v err=%v", cal.ExecReturn, cal.Out.Res.Err)
@@ -608,4 +615,112 @@ func init() {
 	Register(&faultProp{id: "C15", kinds: []string{"err"}})
 	Register(&faultProp{id: "C14", kinds: []string{"cancel", "block", "err", "panic-runtime", "none"}})
 	Register(&faultProp{id: "C17", kinds: []string{"none", "err", "panic-runtime", "cancel"}})
+}
+
+// ---------------------------------------------------------------------------------------------
+// race phase of C14: Cancel()/Close() from another goroutine racing with Exec, under -race
+
+// RaceCases: number of extra rounds executed with the race-detector build.
+func (p *faultProp) RaceCases(tier string) int {
+	if p.id != "C14" {
+		return 0
+	}
+	if tier == "thorough" {
+		return 3000
+	}
+	return 240
+}
+
+func (p *faultProp) GenRace(seed uint64, tier string, i int) Case {
+	r := NewRng(seed, 1400, uint64(i))
+	sh := faultShapes[i%len(faultShapes)]
+	if sh.Fallback && GlobalAvoid["cancel-race:fallback"] {
+		sh = faultShapes[(i*7+3)%24] // a native shape instead (open finding F09)
+	}
+	c := Case{Prop: p.id, Kind: "cancel-race", Seed: seed, Index: 1_000_000 + i, Query: sh.Query, Window: faultWindow(r.P(0.2)), Dataset: faultDataset()}
+	c.Engine = EngineCfg{Opt: sh.Opt, Fallback: sh.Fallback, Procs: Pick(r, []int{4, 8, 16})}
+	if c.Engine.Opt == "" {
+		c.Engine.Opt = "none"
+	}
+	if sh.Dist {
+		c.NParts = 2
+	}
+	c.Extra = map[string]any{"rounds": float64(6), "rseed": float64(r.Uint64() % (1 << 50)), "use_close": r.P(0.3)}
+	return c
+}
+
+func (p *faultProp) checkCancelRace(c Case) Outcome {
+	var o Outcome
+	rs, _ := c.Extra["rseed"].(float64)
+	useClose, _ := c.Extra["use_close"].(bool)
+	rounds := 6
+	r := NewRng(uint64(rs), 14)
+	so := StoreOpts{Pure: true, PerturbSeed: 1 + r.Uint64()%1000}
+	full := calibrate(Case{Query: c.Query, Window: c.Window, Engine: c.Engine, NParts: c.NParts, Dataset: c.Dataset})
+	old := setProcs(c.Engine.Procs)
+	defer setProcs(old)
+	cfg := c.Engine
+	cfg.Procs = 0
+	for k := 0; k < rounds; k++ {
+		var eng QueryEngine
+		var st storage.Queryable = NewStore(c.Dataset, so)
+		if c.NParts > 0 {
+			var engines []api.RemoteEngine
+			for _, d := range splitDataset(c.Dataset, c.NParts) {
+				engines = append(engines, engine.NewLocalEngine(engOpts(cfg, nil), NewStore(d, so)))
+			}
+			eng = engine.NewDistributedEngine(engOpts(cfg, nil), api.NewStaticEndpoints(engines))
+		} else {
+			eng = engine.New(engOpts(cfg, nil))
+		}
+		qry, err := NewQuery(eng, st, cfg, c.Query, c.Window)
+		if err != nil {
+			o.Skipped = "creation failed: " + err.Error()
+			return o
+		}
+		spin := r.Intn(4000)
+		done := make(chan Result, 1)
+		go func() { done <- Canon(qry.Exec(context.Background())) }()
+		go func() {
+			x := 0
+			for i := 0; i < spin; i++ { // a deterministic amount of work instead of a wall-clock delay
+				x += i
+			}
+			_ = x
+			if useClose {
+				qry.Close()
+			} else {
+				qry.Cancel()
+			}
+		}()
+		select {
+		case res := <-done:
+			o.Count("cancel_races", 1)
+			switch {
+			case res.Err == nil:
+				if d := Compare(res, full.Out.Res); d != nil {
+					o.Add("partial-success", fmt.Sprintf("round %d: Exec raced by Cancel returned success with a result different from the full one: %s", k, d.Detail))
+					return o
+				}
+				o.Count("completed", 1)
+			case !isCtxErr(res.Err):
+				o.Add("non-context-error", fmt.Sprintf("round %d: Exec raced by Cancel returned a non-context error: %v", k, res.Err))
+				return o
+			default:
+				o.Count("cancelled", 1)
+				o.NonTrivial = true
+			}
+		case <-time.After(60 * time.Second):
+			o.Add("hang", fmt.Sprintf("round %d: Exec did not return within 60s after a concurrent Cancel\n%s", k, strings.Join(scanGoroutines(), "\n\n")))
+			return o
+		}
+		qry.Close()
+	}
+	if leaked := EngineGoroutines(3 * time.Second); len(leaked) > 0 {
+		time.Sleep(300 * time.Millisecond)
+		if again := scanGoroutines(); len(again) >= len(leaked) {
+			o.Add("goroutine-leak", fmt.Sprintf("%d engine goroutine(s) alive after cancelled queries were closed\n%s", len(again), strings.Join(again, "\n\n")))
+		}
+	}
+	return o
 }
